@@ -26,7 +26,7 @@ RULE = ("one evaluation = one consumer (bnp.compute single/tuple/dict of genome.
         "the data is not simply 'all contigs in genome order in one chunk'; distinct = distinct tuples (consumer, source "
         "kinds, genome mode, order class of each stream incl. early/late position of the first offending group, chunking "
         "class, PYTHONHASHSEED class)")
-BUDGET = {"quick": (12000, 40), "thorough": (80000, 900)}
+BUDGET = {"quick": (30000, 40), "thorough": (500000, 900)}
 ASSUMPTIONS = ["the genome's order is the key order of the dict / chrom.sizes file (sorted when sort_names=True); ignored "
                "names are the genome's '_' names under the ignore_underscores filter plus the names given to with_ignored_added",
                "MultiStream / left_join have no ignored names: every name outside the contig list is unknown",
